@@ -193,6 +193,8 @@ func checkC19(c *Ctx) {
 	c.ruleFullTraversal("C19-R4", 2)
 	c.ruleValueRemovalKeepsChildren("C19-R5")
 	c.ruleInteriorPointersFollowRoot("C19-R6")
+	c.ruleEndOfKeyAgreement("C19-R7")
+	c.ruleKeysAreCopied("C19-R8")
 }
 
 // nilGuardedMap: the MapUpdate through field address fa is dominated by an If on "(node).Children == nil" whose true branch stores a fresh map into the same field.
@@ -867,6 +869,113 @@ func (c *Ctx) ruleInteriorPointersFollowRoot(id string) {
 		}
 	}
 	ru.Anchor(n > 0, "a function that installs a new root in a trie wrapper")
+}
+
+// ruleEndOfKeyAgreement implements C19-R7: the routines of one trie that consume a key level by level agree on what ends
+// a key — the level token being empty, or the remaining key being empty. The two differ for keys with an empty level
+// (a//b, a/): a store whose insert stops at the first empty level while its look-up goes on never finds what it stored.
+func (c *Ctx) ruleEndOfKeyAgreement(id string) {
+	ru := c.R.Rule(id, "within one trie, every routine that walks a key level by level (format.Topic.Next) recognises the end of the key by the same test — the level just read is empty, or nothing remains — so that insert, remove and look-up stop at the same node for every key, keys with empty levels included", "E10 sibling agreement on the end-of-key predicate", 2)
+	for _, pkg := range triePkgs {
+		classOf := map[*ssa.Function]string{}
+		var fns []*ssa.Function
+		for _, f := range c.P.ModFuncs() {
+			if f.Package() == nil || f.Package().Pkg.Path() != c.P.Rel(pkg) || c.P.IsGenerated(f) || f.Signature.Recv() == nil || !isNamed(derefT(f.Signature.Recv().Type()), pkg, "Node") {
+				continue
+			}
+			var next *ssa.Call
+			for _, cl := range core.CallsIn(f) {
+				if cl.Obj != nil && cl.Obj.Name() == "Next" && cl.Obj.Pkg() != nil && strings.HasSuffix(cl.Obj.Pkg().Path(), "/format") {
+					if cv, ok := cl.Instr.(*ssa.Call); ok {
+						next = cv
+					}
+				}
+			}
+			if next == nil {
+				continue
+			}
+			tokEmpty, remaining := false, false
+			for _, b := range f.Blocks {
+				for _, in := range b.Instrs {
+					bo, ok := in.(*ssa.BinOp)
+					if !ok || (bo.Op != token.EQL && bo.Op != token.NEQ && bo.Op != token.GTR && bo.Op != token.LSS) {
+						continue
+					}
+					for _, pair := range [][2]ssa.Value{{bo.X, bo.Y}, {bo.Y, bo.X}} {
+						k, isK := pair[1].(*ssa.Const)
+						if !isK || k.Value == nil {
+							continue
+						}
+						if ex, ok := core.Strip(pair[0]).(*ssa.Extract); ok && ex.Tuple == ssa.Value(next) && ex.Index == 1 && k.Value.ExactString() == `""` {
+							tokEmpty = true
+						}
+						if lc, ok := core.Strip(pair[0]).(*ssa.Call); ok && core.CallOf(lc).Builtin() == "len" && len(lc.Call.Args) == 1 {
+							if nt, ok := lc.Call.Args[0].Type().(*types.Named); ok && nt.Obj().Name() == "Topic" && k.Value.ExactString() == "0" {
+								remaining = true
+							}
+						}
+					}
+				}
+			}
+			cls := map[[2]bool]string{{true, false}: "the level just read is empty", {false, true}: "nothing remains of the key", {true, true}: "both tests", {false, false}: "no end-of-key test"}[[2]bool{tokEmpty, remaining}]
+			classOf[f] = cls
+			fns = append(fns, f)
+		}
+		if !ru.Anchor(len(fns) > 0, "level-by-level routines of "+pkg+".Node") {
+			continue
+		}
+		count := map[string]int{}
+		for _, f := range fns {
+			count[classOf[f]]++
+		}
+		major := ""
+		for cls, n := range count {
+			if n > count[major] || (n == count[major] && cls < major) {
+				major = cls
+			}
+		}
+		for _, f := range fns {
+			c.R.Fn(c.fname(f))
+			ru.Check(classOf[f] == major, "end-of-key test of "+c.fname(f), c.whereF(f), classOf[f], fmt.Sprintf("this routine ends a key when %s, its %d sibling(s) when %s: for a key with an empty level they stop at different nodes", classOf[f], count[major], major))
+		}
+	}
+}
+
+// ruleKeysAreCopied implements C19-R8: the level tokens that become map keys of the tries are strings of their own: no
+// unsafe pointer conversion in the tokeniser or in the tries (a key that aliases the caller's topic buffer is rewritten
+// when the caller reuses that buffer: the entry stored under it becomes unreachable).
+func (c *Ctx) ruleKeysAreCopied(id string) {
+	ru := c.R.Rule(id, "the keys of the tries do not alias their callers' buffers: no function of wasp/format, topics or subscriptions converts through unsafe.Pointer (a zero-copy []byte→string conversion of a level makes a map key change when the caller reuses the slice it passed as topic)", "E11 who-may-convert over the three packages (positive control: their string conversions counted)", 1)
+	n, bad := 0, ""
+	for _, f := range c.P.ModFuncs() {
+		if f.Package() == nil || c.P.IsGenerated(f) {
+			continue
+		}
+		pp := f.Package().Pkg.Path()
+		if pp != c.P.Rel("wasp/format") && pp != c.P.Rel("topics") && pp != c.P.Rel("subscriptions") {
+			continue
+		}
+		for _, b := range f.Blocks {
+			for _, in := range b.Instrs {
+				cv, ok := in.(*ssa.Convert)
+				if !ok {
+					continue
+				}
+				isUnsafe := func(t types.Type) bool {
+					bt, ok := t.Underlying().(*types.Basic)
+					return ok && bt.Kind() == types.UnsafePointer
+				}
+				if isUnsafe(cv.Type()) || isUnsafe(cv.X.Type()) {
+					bad = "conversion through unsafe.Pointer at " + c.whereI(cv)
+				}
+				if bt, ok := cv.Type().Underlying().(*types.Basic); ok && bt.Kind() == types.String {
+					n++
+					c.R.Fn(c.fname(f))
+				}
+			}
+		}
+	}
+	ru.Check(bad == "" && n > 0, "conversions in wasp/format, topics, subscriptions", "-", fmt.Sprintf("%d copying string conversion(s), no unsafe pointer", n), bad+map[bool]string{true: "", false: " no string conversion found in the tokeniser"}[n > 0])
 }
 
 // ruleValueRemovalKeepsChildren implements C19-R5.
